@@ -685,6 +685,14 @@ def cases(rng, tier):
         [["rxalloc", "4", [1, 2]], ["lost"], ["connected"], ["connected"], ["rxalloc", "4", [1, 2]]],
         [["input"], ["h", "choosenp", "7"], ["h", "choosewords", "has space"]],
         [["input"], ["h", "wwa"], ["h", "wwa"], ["h", "choosenp", "7"], ["gotwl"], ["h", "wwa"], ["gotwl"]],
+        # the list REQUEST and its RESPONSE are two events: a completion query that falls between them is answered from the
+        # old list, the same query after the response from the new one — with or without another refresh in between
+        [["input"], ["gotnp", ["3", "31"]], ["h", "npc", "3"], ["h", "refresh"], ["h", "npc", "3"], ["gotnp", ["7", "35"]],
+         ["h", "npc", "3"], ["h", "npc", ""], ["h", "npc", "7"], ["h", "refresh"], ["h", "npc", "3"], ["gotnp", ["3"]], ["h", "npc", "3"],
+         ["h", "npc", "3"], ["gotnp", []], ["h", "npc", "3"], ["h", "npc", ""]],
+        [["input"], ["h", "refresh"], ["h", "npc", "1"], ["h", "npc", "1"], ["gotnp", ["1", "12", "100"]], ["h", "npc", "1"],
+         ["gotnp", ["2", "10", "11", "12", "13"]], ["h", "npc", "1"], ["h", "npc", "2"], ["h", "refresh"], ["h", "refresh"],
+         ["gotnp", ["21"]], ["h", "npc", "1"], ["h", "npc", "2"], ["gotnp", ["21"]], ["h", "npc", "2"]],
     ]
     for ops in corpus_api:
         out.append(dict(kind="api", ops=ops))
